@@ -117,7 +117,9 @@ func c20CheckWith(c *Ctx, body []byte, useGzip bool, desc map[string]any, cf *c2
 			out, outHdr, cl, tag, err = proxy.VerifFilterHTML(wire, hdr)
 		} else {
 			out, outHdr, cl, tag, err = proxy.VerifFilterHTMLWith(cf.conf, cf.page, wire, hdr)
-			// the tag is text; the body is bytes of an unknown 8-bit charset: every character of the tag up to U+00FF is one byte
+			// the tag is text and the statement does not say in which charset it is written into a body of
+			// unknown charset: one byte per character (all are below U+0100 here) and UTF-8 are both "the tag";
+			// whichever of the two the output holds is taken
 			var tb []byte
 			for _, r := range tag {
 				if r > 0xFF {
@@ -125,7 +127,9 @@ func c20CheckWith(c *Ctx, body []byte, useGzip bool, desc map[string]any, cf *c2
 				}
 				tb = append(tb, byte(r))
 			}
-			tag = string(tb)
+			if !bytes.Contains(out, []byte(tag)) || bytes.Contains(body, []byte(tag)) {
+				tag = string(tb)
+			}
 		}
 	}); p != nil {
 		if he, ok := p.(HarnessError); ok {
